@@ -21,8 +21,9 @@ def file_bytes(path):
 # ------------------------------------------------------------------------------- observable states
 
 def state_bloom(f, path=None):
-    s = {"bytes": bytes(f), "hex": f.export_hex(), "elements_added": f.elements_added, "cells": bl.cells_of(f),
+    s = {"elements_added": f.elements_added, "cells": bl.cells_of(f),
          "geometry": (f.number_bits, f.number_hashes, f.estimated_elements, f.false_positive_rate, f.bloom_length),
+         "bytes": bytes(f), "hex": f.export_hex(),
          # what the statistics and the string form report is observable too (a memo that survives clear() shows here)
          "estimate_elements()": f.estimate_elements(), "current_false_positive_rate()": f.current_false_positive_rate(),
          "str": str(f).replace("is on disk: yes", "is on disk: ?").replace("is on disk: no", "is on disk: ?")}
@@ -32,24 +33,27 @@ def state_bloom(f, path=None):
 
 
 def state_expanding(f):
-    s = {"bytes": bytes(f), "elements_added": f.elements_added, "expansions": f.expansions}
+    # (the cheap accessors are read BEFORE the export: an export that changes the structure must not get to prepare its own "before")
+    s = {"elements_added": f.elements_added, "expansions": f.expansions}
     if hasattr(f, "current_queue_size"):
         s["queue"] = (f.current_queue_size, f.max_queue_size)
+    s["bytes"] = bytes(f)
     return s
 
 
 def state_sketch(f):
-    s = {"bytes": bytes(f), "elements_added": f.elements_added, "query_type": f.query_type, "geometry": (f.width, f.depth)}
+    s = {"elements_added": f.elements_added, "query_type": f.query_type, "geometry": (f.width, f.depth)}
     if hasattr(f, "heavy_hitters"):
         s["heavy_hitters"] = dict(f.heavy_hitters)
     if hasattr(f, "meets_threshold"):
         s["meets_threshold"] = dict(f.meets_threshold)
+    s["bytes"] = bytes(f)
     return s
 
 
 def state_cuckoo(f, counting):
     tab = [[(b.finger, b.count) for b in bucket] for bucket in f.buckets] if counting else [[int(x) for x in bucket] for bucket in f.buckets]
-    s = {"bytes": bytes(f), "buckets": tab, "elements_added": f.elements_added, "capacity": f.capacity, "geometry": (f.bucket_size, f.max_swaps, f.fingerprint_size_bits)}
+    s = {"buckets": tab, "elements_added": f.elements_added, "capacity": f.capacity, "geometry": (f.bucket_size, f.max_swaps, f.fingerprint_size_bits), "bytes": bytes(f)}
     if counting:
         s["unique_elements"] = f.unique_elements
     return s
@@ -328,6 +332,11 @@ def wl_expanding(ctx, rng, case):
             except Exception:
                 ctx.count("states_after_a_refused_call")
         if rng.random() < 0.4:
+            if rotating and rng.random() < 0.5:
+                # ... with ANOTHER queue limit than the one it was written with (a smaller one: the loaded queue is then longer than the
+                # limit - the library does not trim it, and nothing that only reads may)
+                extra = {"max_queue_size": rng.randint(1, extra["max_queue_size"])}
+                ctx.count("rotating_states_reloaded_with_another_queue_limit")
             f = cls.frombytes(bytes(f), **extra, **bl.kw_hash(hf))
             case.op("state-reloaded")
             ctx.count("reloaded_states")
